@@ -69,6 +69,10 @@ def gen(rng, tier):
         cases.append("I %d ok %s %d %s" % (S, ["0", "4096,1000,30000"][j % 2], 0, sc))
     return cases
 
+import c04 as _c04
+corr_equal = _c04.corr_equal
+
+
 def classify(case, model):
     t = case.split()
     if t[0] == "tables":
